@@ -253,6 +253,8 @@ Proof.
     assert (Hit : item_at st i = it) by (apply nth_error_nth; exact En).
     assert (Hs : forall o, isig (with_origin it o) = isig (item_at st i)) by (intros o; rewrite Hit; reflexivity).
     destruct r; inv H; try exact Hi. apply set_item_struct; [apply Hs | exact Hi].
+  - unfold set_header. destruct (lf_at st l); [|intros H; inv H; auto].
+    destruct is_id, r; intros H Hi; inv H; try exact Hi; apply set_lf_struct; exact Hi.
 Qed.
 
 Theorem run_ops_inv_struct : forall ops ps st, Inv_struct st -> Inv_struct (bstate_of (run_ops ps st ops)).
